@@ -293,7 +293,10 @@ impl Compactor {
 	}
 
 	fn open_table(&self, table_id: u64, table_path: &Path) -> Result<Arc<Table>> {
-		let file = SysFile::open(table_path)?;
+		// The manifest is about to reference this table and the inputs are about
+		// to be deleted: its contents must be on disk first (as for flushed tables).
+		let file = crate::vfs::open_for_sync(table_path)?;
+		file.sync_all()?;
 		let file: Arc<dyn File> = Arc::new(file);
 		let file_size = file.size()?;
 
